@@ -54,8 +54,8 @@ CHECKS = {
  "C18": dict(cat="exploration", sec="5.18", tech="deviation-bounded exhaustive enumeration of configuration files and of all argument vectors of length 0..3; wire values observed by the reference AMF",
    text="Configuration files are generated from typed values over an alphabet per documented key (24 keys; quoting styles, escapes, empty strings, numeric extremes, both key orders), all files with <=1 (quick) / <=2 (thorough) deviations; GetConfiguration must return the typed values key by key; the values observable on the wire (IMSI, PLMN, gNB id/length/name, K/OP/OPc, S-NSSAI, gnb_gtp_ip, repetition counts) are checked by the reference AMF in closed-system runs; all 259 argument vectors of length 0..3 over a 6-symbol alphabet are run at process level (banner, usage, messages reaching the AMF).",
    note="YAML expectations for quoted scalars; traffic mode cannot start in the sandbox, only its selection is observed"),
- "C19": dict(cat="fault_enumeration", sec="5.19", tech="exhaustive enumeration of fault points (every downlink message index x 9 fault kinds x count vectors) on the real process under a syscall monitor",
-   text="For each count vector every downlink message index of the fault-free conversation is combined with {peer closes instead, ff ff ff, 00, truncated message, 2047/2048/4096 octets of ff (around the emulator's read buffer), the message with its PDU choice index destroyed, with its outer length determinant beyond the end}; the real process runs under strace, whose sendmsg/recvmsg history is the ground truth of what the emulator consumed; once it consumed the fault it must exit non-zero without the banner and without sending again, and it must always terminate within the horizon.",
+ "C19": dict(cat="fault_enumeration", sec="5.19", tech="exhaustive enumeration of fault points (every downlink message index x 10 fault kinds x count vectors) on the real process under a syscall monitor",
+   text="For each count vector every downlink message index of the fault-free conversation is combined with {peer closes instead, ff ff ff, 00, truncated message, 2047/2048/4096 octets of ff (around the emulator's read buffer), the message with its PDU choice index destroyed, with its outer length determinant beyond the end, with its IE count 256 too large}; the real process runs under strace, whose sendmsg/recvmsg history is the ground truth of what the emulator consumed; once it consumed the fault it must exit non-zero without the banner and without sending again, and it must always terminate within the horizon.",
    note="strace as monitor; the message after Registration Complete is exempt for garbage (per the property); faulty octets that the reference codec still decodes are out of scope; a run that outlives the horizon has its whole process group killed; thorough replays conversations with real sleeps to validate the time shim"),
  "C20": dict(cat="model_checking", sec="5.20", tech="controlled cooperative scheduler over the instrumented real code: exhaustive enumeration of schedules up to a preemption bound, plus a separate free-running -race pass",
    text="The repository packages are rebuilt through an overlay that inserts a yield in front of every statement that reads or writes a package-level variable mutated at run time (found by a two-pass AST analysis of the current tree: assignments also through index/field/pointer, inc/dec, address-of, method calls on visible variables, copy/append destinations, cross-package), and every statement that uses a local alias of such storage (intra-procedural taint: values loaded from a shared table / cache / pool, results of functions that return them), a coarse yield at the entry of every function of the instrumented packages, and replaces sync by a scheduler-aware version (Mutex/RWMutex/Once, and a Pool that shares as much as sync.Pool's contract allows); for all 66 pairs of 11 operation kinds (each thread on its own UE context, different message types per thread) every schedule with <=2 preemptions (quick) / <=3 and triples (thorough) over the first 8/16 dynamic instances of each statement site and the first 1/2 of each function entry per thread is executed and each thread's output compared with the sequential one; deadlocks are violations. Because cooperative hand-offs hide races from the detector, the same bodies also run free on 2/8/64 goroutines in a binary built with -race.",
